@@ -490,6 +490,9 @@ func (a *Analysis) CheckC14(rep *Report) {
 			continue
 		}
 		rep.Ob("H0-algorithm-name-constant", name, svc.Name != "", pos, "Algorithm() does not return one constant name")
+		// the property publishes a definition for four names; a service registered under any other name (an Adler-32 or
+		// XOR service added beside them) is held to H1 and the no-shared-state part of H2 only
+		pinned := map[string]bool{"SSE_BIN": true, "SZSE_BIN": true, "CRC16": true, "CRC32": true}[svc.Name] || svc.Name == ""
 		// branches the value ranges rule out (`if checksum > 0xFF { … }` after every step masked to eight bits – an
 		// asserted invariant): the paths through them do not exist
 		paths = pruneByIntervals(paths, fn, intervals(fn))
@@ -560,7 +563,9 @@ func (a *Analysis) CheckC14(rep *Report) {
 					}
 					rep.Ob("H2-deterministic", name+":"+e.Recv.Pretty(), okTable, epos, "Calc reads package-level state "+e.Recv.Pretty())
 				case EvCall:
-					rep.Ob("H2-deterministic", name+":"+e.Mode, false, epos, "Calc calls "+e.Mode+", which is outside the model")
+					if pinned {
+						rep.Ob("H2-deterministic", name+":"+e.Mode, false, epos, "Calc calls "+e.Mode+", which is outside the model")
+					}
 				case EvMapRead, EvMapWrite, EvGo, EvLock:
 					rep.Ob("H2-deterministic", name+":"+e.Kind.String(), false, epos, "Calc performs "+e.String())
 				}
@@ -604,6 +609,10 @@ func (a *Analysis) CheckC14(rep *Report) {
 					rep.Ob("H2-deterministic", name+":ret", false, pos, "result depends on "+r.Pretty())
 				}
 			}
+		}
+		if !pinned {
+			rep.Notes = append(rep.Notes, "service "+name+" ("+svc.Name+") has no published definition in the property; only H1 and the no-shared-state rules apply")
+			continue
 		}
 		rep.Ob("H3-single-success-path", name, okPaths == 1, pos, fmt.Sprintf("Calc has %d normal return paths (one expected: any early return skips input)", okPaths))
 		class := map[string]string{"SSE_BIN": "bytesum", "SZSE_BIN": "bytesum", "CRC16": "crc16", "CRC32": "crc32"}[svc.Name]
